@@ -1,22 +1,67 @@
 """Simple-type battery (implementation side).  stdin: JSON {"pairs": [[class name, python repr of the value], ...]}.
-stdout: JSON list of [verdict, rendered text or null], in order.  verdict: ok | TypeError | ValueError | <other exception>."""
+stdout: JSON list of [verdict, str(value) or null, text found in the serialisation of an element carrying the value or null, carrier], in order.
+verdict: ok | TypeError | ValueError | <other exception>.  The serialised text is taken from a real element: the first element class whose
+text content (or one of whose attributes) has that simple type, built unchecked so that only the value is validated."""
 import sys, io, json, contextlib, warnings
+import xml.etree.ElementTree as ET
 warnings.simplefilter('ignore')
 with contextlib.redirect_stdout(io.StringIO()):
     from musicxml.xsd import xsdsimpletype as ST
+    from musicxml.xmlelement import xmlelement as XE
+sys.path.insert(0, __file__.rsplit('/', 1)[0])
+import impl_runner as R
+R.init()
 job = json.load(sys.stdin)
 nan, inf = float('nan'), float('inf')
+carriers = {}
+for n in XE.__all__:
+    c = getattr(XE, n)
+    if not (isinstance(c, type) and issubclass(c, XE.XMLElement)) or c is XE.XMLElement:
+        continue
+    try:
+        T = c.TYPE
+        if isinstance(T, type) and issubclass(T, ST.XSDSimpleType):
+            carriers.setdefault(T.__name__, ('text', c, None))
+        elif T.get_xsd_tree().is_complex_type:
+            for a in T.get_xsd_attributes():
+                try:
+                    carriers.setdefault(a.type_.__name__, ('attr', c, a.name))
+                except Exception:
+                    pass
+    except Exception:
+        pass
+
+
+def serialised(cls, v):
+    if cls not in carriers:
+        return None, None
+    kind, c, an = carriers[cls]
+    try:
+        with contextlib.redirect_stdout(io.StringIO()):
+            if kind == 'text':
+                e = c(v, xsd_check=False)
+                return (ET.fromstring(e.to_string()).text or ''), c.__name__
+            R.make(c.XSD_TREE.name)
+            v0 = R._cache.get(c.XSD_TREE.name)
+            kw = {an.replace('-', '_'): v, 'xsd_check': False}
+            e = c(v0, **kw) if v0 is not None else c(**kw)
+            return ET.fromstring(e.to_string()).attrib.get(an), c.__name__ + '@' + an
+    except Exception as ex:
+        return 'EXC:' + type(ex).__name__, c.__name__
+
+
 out = []
 for cls, rv in job['pairs']:
     v = eval(rv)
     try:
         c = getattr(ST, cls)
         c(v)
-        out.append(['ok', str(v)])
+        txt, car = serialised(cls, v)
+        out.append(['ok', str(v), txt, car])
     except TypeError:
-        out.append(['TypeError', None])
+        out.append(['TypeError', None, None, None])
     except ValueError:
-        out.append(['ValueError', None])
+        out.append(['ValueError', None, None, None])
     except Exception as ex:
-        out.append([type(ex).__name__, None])
+        out.append([type(ex).__name__, None, None, None])
 json.dump(out, sys.stdout)
